@@ -75,7 +75,12 @@ def _cache_source(proj, fi, expr, cached, depth=0):
         r = resolve_callee(proj, fi.module, expr)
         if r.kind == 'func' and r.qual in cached:
             return r.qual
+        # a view of a cached array (reshape / view / ravel / transpose / swapaxes / squeeze) is still owned by the cache
+        if isinstance(expr.func, ast.Attribute) and expr.func.attr in ('reshape', 'view', 'ravel', 'transpose', 'swapaxes', 'squeeze'):
+            return _cache_source(proj, fi, expr.func.value, cached, depth + 1)
         return None
+    if isinstance(expr, ast.Attribute) and expr.attr in ('T', 'real', 'imag', 'mT'):
+        return _cache_source(proj, fi, expr.value, cached, depth + 1)
     if isinstance(expr, ast.Name):
         for v, st, path in assignments(fi.node).get(expr.id, []):
             if path is None or isinstance(path, tuple):
@@ -124,7 +129,7 @@ def o1(proj, rep, focus=None):
             for v, st, path in lst:
                 if v is None or not (path is None or isinstance(path, tuple)):
                     continue
-                s = _cache_source(proj, fi, v, target) if isinstance(v, (ast.Call, ast.Name, ast.Subscript)) else None
+                s = _cache_source(proj, fi, v, target) if isinstance(v, (ast.Call, ast.Name, ast.Subscript, ast.Attribute)) else None
                 if s:
                     aliases[name] = s
         # names rebound to fresh values elsewhere are still tracked (may-alias): a mutation is reported only if *every*
@@ -133,7 +138,7 @@ def o1(proj, rep, focus=None):
         for name, src in aliases.items():
             allb = assignments(fi.node).get(name, [])
             if all((path is None or isinstance(path, tuple)) and v is not None and
-                   isinstance(v, (ast.Call, ast.Name, ast.Subscript)) and _cache_source(proj, fi, v, target)
+                   isinstance(v, (ast.Call, ast.Name, ast.Subscript, ast.Attribute)) and _cache_source(proj, fi, v, target)
                    for v, st, path in allb if path != 'aug'):
                 sure[name] = src
         if not aliases:
